@@ -54,7 +54,31 @@ class API:
         self.modules[module.id] = module
 
     def add_class(self, class_: Class) -> None:
+        previous_definition = self.classes.get(class_.id)
+        if previous_definition is not None and previous_definition is not class_:
+            # A class that is defined again replaces the earlier definition, together with the members only that one had
+            self._remove_members(previous_definition)
         self.classes[class_.id] = class_
+
+    def _remove_members(self, class_: Class) -> None:
+        """Remove the members of a replaced class, unless the later definition has registered them again."""
+        functions = [*class_.methods, *([class_.constructor] if class_.constructor is not None else [])]
+        for function in functions:
+            if self.functions.get(function.id) is function:
+                del self.functions[function.id]
+                for parameter in function.parameters:
+                    if self.parameters_.get(parameter.id) is parameter:
+                        del self.parameters_[parameter.id]
+                for result in function.results:
+                    if self.results.get(result.id) is result:
+                        del self.results[result.id]
+        for attribute in class_.attributes:
+            if self.attributes_.get(attribute.id) is attribute:
+                del self.attributes_[attribute.id]
+        for nested_class in class_.classes:
+            if self.classes.get(nested_class.id) is nested_class:
+                del self.classes[nested_class.id]
+                self._remove_members(nested_class)
 
     def add_function(self, function: Function) -> None:
         previous_definition = self.functions.get(function.id)
@@ -141,6 +165,8 @@ class Module:
         }
 
     def add_class(self, class_: Class) -> None:
+        # A later definition of the same name replaces the earlier one
+        self.classes = [class__ for class__ in self.classes if class__.id != class_.id]
         self.classes.append(class_)
 
     def add_function(self, function: Function) -> None:
@@ -214,6 +240,8 @@ class Class:
         self.methods.append(method)
 
     def add_class(self, class_: Class) -> None:
+        # A later definition of the same name replaces the earlier one
+        self.classes = [class__ for class__ in self.classes if class__.id != class_.id]
         self.classes.append(class_)
 
     def add_constructor(self, constructor: Function) -> None:
